@@ -23,6 +23,7 @@ THEOREMS = [
     # second clause without assumed laws: the reset laws are proved for the Pauli-expectation semantics (C12PTM)
     "CKT.C12PTM.ptm", "CKT.C12PTM.optimizeResets_statistics", "CKT.C19PTM.no_reuse_reset_free_and_same_statistics_ptm",
 ]
+LEVEL_TEXT = ("shape of the three passes, T19.1 at wire / splice / model level with decidable hypotheses evaluated per workflow, and the second clause (statistics unchanged) without assumed laws in the Pauli-expectation semantics; that real no-re-use workflows meet the hypotheses is checked per run, not proved")
 RULE = ("circuits on 1-4 qubits with 1-3 wire-cut markers at any position (first/last on a wire, interleaved) pushed through cut_wires -> "
         "expand_observables -> partition_problem (automatic / explicit) -> generate_cutting_experiments, observables incl. identity on whole "
         "partitions; plus hand-placed Moves onto fresh qubits and Move chains that re-use qubits; for the second clause also user-written resets with "
